@@ -78,7 +78,7 @@ def deep_cons_ok(td, v, realm, sopts: S.SOpts) -> bool:
                 x = v[f.name]
             else:
                 x = getattr(v, f.name)
-            t = M.Ann(f.t, f.cons) if f.cons else f.t
+            t = S.field_type(f)
             if getattr(f, "conv", None) is None and not deep_cons_ok(t, x, realm, sopts):
                 return False
         return True
